@@ -21,6 +21,16 @@ type pairArg struct {
 	B      string `json:"b"`
 	BuildA string `json:"build_a,omitempty"` // build metadata used by the string helpers
 	BuildB string `json:"build_b,omitempty"`
+	// Limit: sem.MaxInputLength during the comparison (nil = the library's default). The order of two valid version values
+	// must not depend on the parser's input limit.
+	Limit *int `json:"max_input_length,omitempty"`
+}
+
+func setupPair(p pairArg) {
+	libdefaults.Sem()
+	if p.Limit != nil {
+		sem.MaxInputLength = *p.Limit
+	}
 }
 
 func probePre(p pairArg) (string, string) {
@@ -182,7 +192,7 @@ func main() {
 		firstuse.Phase(r, map[string][]string{"sem": {"compare"}})
 		r.Reset = reset
 		reset()
-		pPre := mc.NewProbe(r, "prerelease_pair", nil, probePre)
+		pPre := mc.NewProbe(r, "prerelease_pair", setupPair, probePre)
 		pHelp := mc.NewProbe(r, "helpers", nil, probeHelpers)
 		pCore := mc.NewProbe(r, "cores", nil, probeCore)
 		r.Assume("reference: identifier-wise section-11 comparator (numeric identifiers compared with math/big and below alphanumeric ones, ASCII order, longer list above its prefix, release above pre-release, build ignored)")
@@ -317,6 +327,39 @@ func main() {
 					cnt(w, long[i], long[j])
 					pPre.Do(w, pairArg{A: long[i], B: long[j]})
 					pHelp.Do(w, pairArg{A: long[i], B: long[j]})
+				}
+			})
+		})
+		// the parser's input limit must not leak into the comparison of version *values* (sem.New / literals can carry
+		// pre-releases of any length): every small limit on the short universe, and pre-releases around and beyond the
+		// default limit whose first difference (or the end of the shorter one) lies at or beyond it
+		for _, ml := range []int{1, 2, 3, 5, 8} {
+			ml := ml
+			r.Phase(fmt.Sprintf("sem.MaxInputLength=%d: all %d^2 ordered pairs of pre-releases of length <= 3 as version values (DefaultComparePreRelease, Ver.Compare)", ml, len(U3)), "complete", func() {
+				sem.MaxInputLength = ml
+				r.Parallel(int64(len(U3)), 4, func(w *mc.W, i int64) {
+					for j := range U3 {
+						cnt(w, U3[i], U3[j])
+						pPre.Do(w, pairArg{A: U3[i], B: U3[j], Limit: &ml})
+					}
+				})
+				reset()
+			})
+		}
+		var huge []string
+		L0 := libdefaults.SemMaxInputLength
+		if L0 < 8 {
+			L0 = 1024
+		}
+		for _, n := range []int{L0 - 20, L0 - 7, L0 - 6, L0 - 5, L0 - 1, L0, L0 + 1, 2 * L0, 4*L0 + 3} {
+			base := strings.Repeat("a", n)
+			huge = append(huge, base, base+"b", base+".1", base+".2", base+".1.x", base[:n-1]+"b", base+"-", "1."+base, "1."+base+".0")
+		}
+		r.Phase(fmt.Sprintf("all ordered pairs of %d pre-releases of %d..%d bytes (common prefixes up to and beyond the default input limit %d) as version values", len(huge), L0-20, 4*L0+8, libdefaults.SemMaxInputLength), "complete", func() {
+			r.Parallel(int64(len(huge)), 1, func(w *mc.W, i int64) {
+				for j := range huge {
+					cnt(w, huge[i], huge[j])
+					pPre.Do(w, pairArg{A: huge[i], B: huge[j]})
 				}
 			})
 		})
